@@ -166,6 +166,7 @@ def census_operators(ctx, model):
                         bad.append("call of %s at %s" % (cal, e.loc))
         ctx.ob("CEN-call", "%s:CEN-call" % v.name, not bad, "%d library calls, all to known pure functions" % n if not bad else "; ".join(bad[:3]), v.loc(v.op.id))
         ok = ok and not bad
+    census_core(ctx, model)
     # helpers (no handlers) must not send
     for op in model.ops.values():
         if op.handlers:
@@ -174,3 +175,56 @@ def census_operators(ctx, model):
             ctx.ob("CEN-S", "%s:helper-sends" % op.name, False, "a function without message handlers sends a message at %s" % e.loc, e.loc)
             ok = False
     return ok
+
+
+# ============================================================================= CEN-core: the local impls the alias table relies on
+
+def census_core(ctx, model):
+    """The alias table folds `Callbag::deref`, `Callbag::from(handler)` and `Message::clone` as identities; check on their MIR
+    that this is what the three local impls in core.rs are."""
+    P = model.prog
+    found = {"deref": 0, "from": 0, "clone": 0}
+    for bid, b in P.bodies.items():
+        if bid == "<core::Callbag<I, O> as std::ops::Deref>::deref":
+            found["deref"] += 1
+            r = P.link(b.origin_local(0))
+            ok = r == ("field", ("param", bid, 1), 0)
+            ctx.ob("CEN-core", "core:Callbag::deref", ok, "Callbag::deref returns its only field" if ok else "Callbag::deref returns %s" % show(r), loc_of(b.span))
+        elif bid == "<core::Callbag<I, O> as std::convert::From<F>>::from":
+            found["from"] += 1
+            r = P.link(b.origin_local(0))
+            ok = r[0] == "agg" and r[1] == "adt" and r[2].startswith("Callbag") and len(r[3]) == 1 and r[3][0] == ("param", bid, 1)
+            body_effects(P, b)
+            extra = [e for e in list(b.effects.values()) if e.kind not in ("alias", "other")]
+            ctx.ob("CEN-core", "core:Callbag::from", ok and not extra, "Callbag::from boxes the handler unchanged" if ok and not extra else "Callbag::from builds %s" % show(r), loc_of(b.span))
+        elif bid == "<core::Message<I, O> as std::clone::Clone>::clone":
+            found["clone"] += 1
+            probs = []
+            seen = set()
+            for vi, var in enumerate(VARIANTS):
+                paths = enumerate_paths(P, b, None, limit=5000)
+            # the derived clone switches on the discriminant of *self: one returning path per variant
+            for p in paths:
+                if p.end != "return":
+                    continue
+                dec = [ev for ev in p.events if ev[0] == "br" and ev[1][0] == "discr"]
+                rets = [ev[1] for ev in p.events if ev[0] == "ret"]
+                if len(dec) != 1 or not rets:
+                    probs.append("clone path without a single variant decision")
+                    continue
+                vi = dec[0][2]
+                r = rets[-1]
+                if not (isinstance(vi, int) and r[0] == "agg" and r[1] == "adt" and r[2] == "Message::" + VARIANTS[vi]):
+                    probs.append("variant %s cloned into %s" % (vi, show(r)[:40]))
+                    continue
+                seen.add(vi)
+                for x in r[3]:
+                    base = strip_clone(x)
+                    okf = any(y == ("param", bid, 1) for y in walk(base)) and any(y[0] == "downcast" and y[2] == VARIANTS[vi] for y in walk(base))
+                    if not okf:
+                        probs.append("payload of %s is not the clone of the same variant's field" % VARIANTS[vi])
+            if seen != set(range(5)):
+                probs.append("variants covered: %s" % sorted(seen))
+            ctx.ob("CEN-core", "core:Message::clone", not probs, "Message::clone maps every variant to itself with the cloned payload" if not probs else "; ".join(probs[:3]), loc_of(b.span))
+    for k, n in found.items():
+        ctx.ob("CEN-core", "core:%s:present" % k, n == 1, "%d impl(s) of %s found" % (n, k))
